@@ -133,7 +133,7 @@ def contracts(reg):
                 Raises("Exception", sub=True, when=rf_other, label="anything else only if the size check passed")],
         note="size > max_file_size > 0  <=>  ExtractionFileTooLargeError before open(); max_file_size <= 0 disables the check",
     ))
-    EXECUTOR_KW[f"{readfile.INIT}::read_file"] = {"abstract": True, "inline_calls": False}
+    EXECUTOR_KW[f"{readfile.INIT}::read_file"] = {"abstract": True, "inline_calls": False, "inline_local": True}
 
     # ---- 7z archive limit: > MAX_7Z_FILE_SIZE refused before the archive is parsed; == accepted
     arch = loader.module(ARCH)
